@@ -262,6 +262,18 @@ def as_arr(ip, x):
     raise Unsupported("array expected, got %r" % (x,))
 
 
+NARROW = {"int8": (-2 ** 7, 2 ** 7), "int16": (-2 ** 15, 2 ** 15), "int32": (-2 ** 31, 2 ** 31), "uint16": (0, 2 ** 16), "uint32": (0, 2 ** 32)}
+
+
+def _narrow(arr, kwargs):
+    """np.empty/zeros/ones/full(..., dtype=np.int32 ...): the heap cell remembers its narrow integer type; every later store into it
+    obliges "the value fits" (NumPy would wrap or raise: either breaks the mathematical-integer reading of the code)"""
+    dt = kwargs.get("dtype")
+    if isinstance(dt, tuple) and len(dt) == 2 and dt[0] == "np" and dt[1] in NARROW and isinstance(arr, SArr):
+        arr.buf.dtype = dt[1]
+    return arr
+
+
 def call_np(ip, name, args, kwargs, lineno):
     c = ip.ctx
     fn = c.fname
@@ -279,9 +291,9 @@ def call_np(ip, name, args, kwargs, lineno):
         c.check("%s:alloc.nonneg@L%s" % (fn, lineno), I(shape) >= 0, "safety", lineno, "array size is non-negative")
         if val is None:
             u = c.fresh_fun("uninit")
-            return SArr.fresh(shape, lambda i: u(I(i)))
+            return _narrow(SArr.fresh(shape, lambda i: u(I(i))), kwargs)
         kind = "bool" if isinstance(val, bool) or kwargs.get("dtype") is bool else "int"
-        return SArr.fresh(shape, lambda i: val, kind)
+        return _narrow(SArr.fresh(shape, lambda i: val, kind), kwargs)
     if name == "arange":
         M.use("np.arange")
         vals = list(args)
